@@ -54,6 +54,11 @@ func TestCheck(t *testing.T) {
 				sysrun.VaryRouteTimers(vh.NewRand(env.Seed*1000003+uint64(i)), &scs[len(scs)-1])
 			}
 		}
+		// a deployment whose local time zone is not UTC: intervals without a location are UTC intervals
+		rz := vh.NewRand(env.Seed + 77050)
+		for i := 0; i < env.N(16, 4); i++ {
+			scs = append(scs, sysrun.Gen(rz.Fork(), sysrun.GenOpts{MaxOps: 8, MultiInt: i%2 == 0, TZ: true}))
+		}
 	}
 	for i := range scs {
 		sc := &scs[i]
